@@ -50,7 +50,33 @@ let oracle_c19 (src : string) (impl : string) : string =
   | "PANIC" :: _ | "CRASH" :: _ -> "FAIL:lexer crashed"
   | _ -> "FAIL:unexpected observation"
 
+(* the expected result computed by the extracted specification travels with the case
+   as a trailing field "S:..." (written by Spec.expand) *)
+let expected_field (f : string list) : string option =
+  List.fold_left (fun acc x -> if starts_with "S:" x then Some (String.sub x 2 (String.length x - 2)) else acc) None f
+
+let oracle_expected (exp : string) (impl : string) : string =
+  let imf = split_on '\t' impl in
+  if exp = "NA" || exp = "UNMODELLED" then "na"
+  else if exp = "ERR" then (
+    match imf with
+    | "RENDER" :: "ERR" :: _ -> "ok"
+    | "RENDER" :: "OK" :: out :: _ -> "FAIL:specification says error, implementation rendered " ^ out
+    | k :: _ -> "FAIL:specification says error, implementation " ^ k
+    | [] -> "FAIL:no observation")
+  else if starts_with "OK:" exp then (
+    let want = String.sub exp 3 (String.length exp - 3) in
+    match imf with
+    | [ "RENDER"; "OK"; out ] -> if out = want then "ok" else "FAIL:specification says " ^ want ^ ", implementation rendered " ^ out
+    | "RENDER" :: "ERR" :: _ -> "FAIL:specification says " ^ want ^ ", implementation returned an error"
+    | k :: _ -> "FAIL:specification says " ^ want ^ ", implementation " ^ k
+    | [] -> "FAIL:no observation")
+  else "na"
+
 let oracle (f : string list) (impl : string) : string =
+  match expected_field f with
+  | Some exp -> oracle_expected exp impl
+  | None ->
   match f with
   | id :: "lex" :: src :: _ when starts_with "C19" id -> oracle_c19 (unhex src) impl
   | _ -> "na"
